@@ -212,9 +212,10 @@ void ps5_sample_sort_lcp(const Context& ctx, const Classify& classifier,
                          const StringPtr& strptr, size_t depth,
                          const BktSizeType* bkt)
 {
-    assert(!strptr.flipped());
-
-    const typename StringPtr::StringSet& strset = strptr.active();
+    // the sorted strings are in the original array: that is the shadow array
+    // if the pointer is flipped
+    const typename StringPtr::StringSet& strset =
+        strptr.flipped() ? strptr.shadow() : strptr.active();
     typedef typename Context::key_type key_type;
 
     size_t b = 0;         // current bucket number
